@@ -102,7 +102,7 @@ def run(ctx):
             m = rng.randint(1, 7) if rng.random() < 0.5 else max(1, n_exp + rng.randint(-1, 1))
             if nested:
                 di = built.desc['sub']['cfg']['delimiter']
-                items = [di.join(rng.choice(GG.INPUTS[:6]) for _ in range(rng.randint(1, 3))) for _ in range(m)]
+                items = [di.join(rng.choice(GG.INPUTS[:6] + (['', ' '] if rng.random() < 0.3 else [])) for _ in range(rng.randint(1, 3))) for _ in range(m)]
             else:
                 items = [rng.choice(GG.INPUTS if rng.random() < 0.3 else GG.INPUTS[:7]) for _ in range(m)]
             subs.append(items)
@@ -136,6 +136,16 @@ def run(ctx):
                             has = amsg in val['msg'].split('\n') or val['msg'].endswith(amsg)
                             if has != want['shown']:
                                 ctx.violation('answer-level message shown=%s, expected %s' % (has, want['shown']), case, impl=GG.canon_result(val))
+                if nested and split_ok:
+                    # error clause through the nesting: a blank item inside a submitted sub-list, with missing_error on the inner grader, is a
+                    # student-facing MissingInput whenever that sub-list is compared with any answer (always when unordered; position < #answers when ordered)
+                    icfg = built.desc['sub']['cfg']
+                    blank = [j for j, it_ in enumerate(v) if any(x.strip() == '' for x in it_.split(icfg['delimiter']))]
+                    lens = [len(el) for alt in canon for el in alt['expect']]
+                    compared = [j for j in blank if (not cfg['ordered']) or any(j < n_ for n_ in lens)]
+                    if icfg['missing_error'] and compared and not (kind == 'err' and val[1] == 'MissingInput'):
+                        ctx.violation('a blank item inside sub-list %d with missing_error on the inner grader must raise MissingInput' % compared[0], case,
+                                      impl=val if kind == 'err' else GG.canon_result(val))
                 if not cfg['ordered'] and kind == 'out':
                     sig = (val['grade_decimal'], val['ok'])
                     if base_sig is None:
